@@ -105,8 +105,9 @@ class PumpCf:
         self.cbs.remove((port, cb))
 
     def send_packet(self, pk, expected_reply=(), resend=False, timeout=0.2):
-        self.sent.append((pk.port, pk.channel, bytes(pk.data)))
-        for rep in self.device.handle(pk.port, pk.channel, bytes(pk.data)):
+        port, channel = (pk.header & 0xF0) >> 4, pk.header & 0x03     # the header attribute is what a link driver transmits
+        self.sent.append((port, channel, bytes(pk.data)))
+        for rep in self.device.handle(port, channel, bytes(pk.data)):
             self.queue.append(rep)
 
     def pump(self, limit=100000):
